@@ -352,11 +352,12 @@ def run_wide_quiet(tier, repo=None, procs=16):
                 a["asrt"] = asrt
                 tot["attention"].append(a)
     events, index = [], {}
-    for ai, att in enumerate(tot["attention"][:200]):
+    for ai, att in enumerate(tot["attention"][:60]):
         obs = dict(att["obs"])
         obs["strict"] = not att["family"].endswith("light")
         obs["asrt"] = att["asrt"]
         obs["id"] = "w%d" % ai
+        obs["log"] = []         # (no snapshots were taken; a thousand stand-in entries of 266 nodes each would only bloat the trace)
         events.append(judge.normalise(obs, obs["id"], haslog=False))
         index[obs["id"]] = att
     if events:
